@@ -6,7 +6,7 @@ from collections import Counter, defaultdict
 from qvlib.extract import VERIF, CheckError
 from qvlib.facts import op_place
 from qvlib.paths import Flow, agg_sites
-from rules import c04, c05, census
+from rules import c04, c05, c14, census
 
 CRATES = None
 W = "quiver_environment::worker::Worker"
@@ -67,17 +67,34 @@ def r2_error_writes(ctx):
     # the error arm of step writes the RUNNING process only: the object written is the local `proc` taken out of the table
     st = F.body(EXEC + "::step")
     fl = Flow(st)
-    writes = []
+    fln = Flow(st, through_named=True)
+    popped = {t["dest"]["l"] for _b, t in st.calls() if (t.get("callee") or "").endswith("VecDeque::pop_front")}
+    nexts = {t["dest"]["l"] for _b, t in st.calls() if (t.get("callee") or "").endswith("Iterator::next")}
+    who = Counter()
     for bi, si, s in st.stmts():
         if s["k"] == "assign":
             fs = [e for e in s["p"]["pr"] if e[0] == "f"]
             if fs and fs[-1][1] == "result" and (fs[-1][2] or "").endswith("process::Process"):
                 root = fl.canon_place(s["p"])[0]
-                writes.append((bi, si, st.local_name(root)))
-    names = Counter(n2 for _b, _s, n2 in writes)
-    ctx.check(names.get("proc", 0) == 1 and names.get("awaiter_process", 0) == 1 and names.get("process", 0) == 2, R, EXEC + "::step|who",
-              "step writes result of: the running process (proc, process) and, in the awaiters loop, awaiter_process — %s" % dict(names),
-              "the set of processes whose result Executor::step writes changed: %s" % dict(names))
+                kinds = set()
+                for src in fl.sources(root):
+                    if src[0] != "call":
+                        continue
+                    c = src[2].get("callee") or ""
+                    if (c.endswith("HashMap::remove") or c.endswith("Executor::get_process_mut") or c.endswith("HashMap::get_mut")) and len(src[2]["args"]) > 1:
+                        kp = op_place(src[2]["args"][1])
+                        back = fln.backward({kp["l"]}, through_calls=("Option::unwrap", "Option::expect", "Try::branch", "Iterator::next", "Clone::clone")) if kp else set()
+                        if back & popped:
+                            kinds.add("running")
+                        elif back & nexts:
+                            kinds.add("awaiter")
+                        else:
+                            kinds.add("other")
+                who["/".join(sorted(kinds)) or "unknown"] += 1
+    ctx.check(set(who) == {"running", "awaiter"} and who["awaiter"] == 1, R, EXEC + "::step|who",
+              "step writes the result of the process it popped from the run queue (%d site(s)) and, in the awaiters loop, of an awaiter (1 site)" % who["running"],
+              "the set of processes whose result Executor::step writes changed: %s (expected: the process popped from the run queue, and one awaiter-loop "
+              "write)" % dict(who))
     # the awaiters loop touches only processes whose awaiting map names the finished process
     keys = F.with_closures(EXEC + "::step")
     ck = any(any((t.get("callee") or "").endswith("HashMap::contains_key") for _b, t in F.body(k).calls()) for k in keys)
@@ -165,12 +182,12 @@ def r4_shared_protocol(ctx):
     # propagation to every awaiter: the await registration / reporting protocol (shared with C04) and the error payload (shared with C05)
     before = len(ctx.obs)
     sub = []
-    for f in (c04.r6_await_registration, c05.r3_error_propagation, c05.r4b_answers_not_dropped, c05.r4_latest_answer_replaces):
+    for f in (c04.r6_await_registration, c05.r3_error_propagation, c05.r4b_answers_not_dropped, c05.r4_latest_answer_replaces, c14.r3_close):
         try:
             f(ctx)
         except CheckError as e:
             sub.append(str(e))
-    ren = {"R-C04-6": "R-C15-4a", "R-C05-3": "R-C15-4b", "R-C05-4": "R-C15-4c", "R-C05-4b": "R-C15-4d"}
+    ren = {"R-C04-6": "R-C15-4a", "R-C05-3": "R-C15-4b", "R-C05-4": "R-C15-4c", "R-C05-4b": "R-C15-4d", "R-C14-3": "R-C15-4e"}
     for o in ctx.obs[before:]:
         o["rule"] = ren.get(o["rule"], o["rule"])
     for old, new in ren.items():
